@@ -291,8 +291,14 @@ def run(tier, replay=None):
     # does not reproduce is counted in the evidence (unreproduced) and not reported. Defects of this property
     # found so far were all deterministic for their scenario.
     viols = [o for o in out if o.get("kind") == "violation"]
-    bad_ids = sorted({(v.get("scenario") or {}).get("id") for v in viols if v.get("scenario")})
-    confirmed = set()
+    # violations of a class an OPEN finding lists are deterministic for their scenario and are not re-executed (there are
+    # hundreds per thorough run): confirmation is for the unlisted ones only, otherwise a one-off on the loaded machine
+    # rides on the "systemic" rule below (seen once: a healthy backend answered 503 once in 47 000 scenarios)
+    known_classes = {c for e in rep.findings if e.get("status") == "open" for c in e.get("classes", [])}
+    listed_ids = {(v.get("scenario") or {}).get("id") for v in viols if v.get("scenario") and v["class"] in known_classes}
+    bad_ids = sorted({(v.get("scenario") or {}).get("id") for v in viols
+                      if v.get("scenario") and v["class"] not in known_classes})
+    confirmed = set(listed_ids)
     sample_ids = bad_ids
     if len(bad_ids) > 12:
         # many scenarios violated: re-execute a dozen of them (one per violation class first)
@@ -322,11 +328,15 @@ def run(tier, replay=None):
         for o in out3:
             if o.get("kind") == "violation" and o.get("scenario"):
                 confirmed.add(o["scenario"].get("orig"))
-        vlib.log("%d scenario(s) violated, %d re-executed, %d confirmed" % (len(bad_ids), len(sample_ids), len(confirmed)))
-        if len(sample_ids) < len(bad_ids) and 2 * len(confirmed) >= len(sample_ids):
+        n_conf = len([i for i in sample_ids if i in confirmed])
+        vlib.log("%d unlisted scenario(s) violated (%d of listed classes), %d re-executed, %d confirmed" % (
+            len(bad_ids), len(listed_ids), len(sample_ids), n_conf))
+        if len(sample_ids) < len(bad_ids) and 2 * n_conf >= len(sample_ids):
             # systemic: what was not re-executed is reported as well
             confirmed |= set(bad_ids)
         rep.extra["unreproduced_violations"] = len([i for i in sample_ids if i not in confirmed])
+        rep.extra["unreproduced_violation_classes"] = sorted({v["class"] for v in viols if (v.get("scenario") or {}).get("id") in sample_ids
+                                                              and (v.get("scenario") or {}).get("id") not in confirmed})[:10]
     for v in viols:
         sc = v.get("scenario") or {}
         if sc and not replay and sc.get("id") not in confirmed:
